@@ -10,6 +10,9 @@ package denco
 // and looks up a path of arbitrary bytes; the oracle is a naive segment matcher.
 
 import (
+	"net/http"
+	"net/url"
+
 	zv "github.com/go-openapi/runtime/internal/zzverif"
 )
 
@@ -448,4 +451,71 @@ func VerifC05Large() {
 	if deep && len(res.params) == 2 {
 		zv.Assert("large-second-param", res.params[1].Name == "k" && res.params[1].Value == "kk")
 	}
+}
+
+// ---- the trie seen through the handler built by Mux.Build ----
+
+type c05MuxRec struct {
+	ran    string
+	params Params
+	status int
+}
+
+var c05Mux *c05MuxRec
+
+type c05MuxWriter struct{ hdr http.Header }
+
+func (w *c05MuxWriter) Header() http.Header         { return w.hdr }
+func (w *c05MuxWriter) Write(p []byte) (int, error) { return len(p), nil }
+func (w *c05MuxWriter) WriteHeader(c int)           { c05Mux.status = c }
+
+// VerifC05Mux: the handler of Mux.Build dispatches on the request's method and
+// decoded path exactly as Lookup does on that path (the escaped form of the URL
+// plays no role), and answers 404 otherwise.
+func VerifC05Mux() {
+	tbl := c05Tables[zv.Choose("table", zv.Param("tables", 5))]
+	mux := NewMux()
+	var hs []Handler
+	for _, pat := range tbl {
+		pat := pat
+		hs = append(hs, mux.GET(pat, func(w http.ResponseWriter, r *http.Request, ps Params) {
+			c05Mux.ran, c05Mux.params = pat, ps
+		}))
+	}
+	h, err := mux.Build(hs)
+	if err != nil {
+		zv.Assert("mux-builds", false)
+		return
+	}
+	path := "/" + zv.String("path", zv.Param("muxlen", 3))
+	reserved := c05Reserved(path)
+	// the same decoded path may arrive under any escaped spelling
+	u := &url.URL{Path: path}
+	if zv.Choose("escaped-spelling-given", 2) == 1 {
+		u.RawPath = "/%41lias"
+	}
+	method := []string{"GET", "POST"}[zv.Choose("method", 2)]
+	c05Mux = &c05MuxRec{}
+	h.ServeHTTP(&c05MuxWriter{hdr: http.Header{}}, &http.Request{Method: method, URL: u, Header: http.Header{}})
+
+	rt := c05Build(tbl, 0)
+	want := c05Lookup(rt, path)
+	if want.panicked {
+		return
+	}
+	if method == "GET" && want.found {
+		zv.Reach("mux-dispatched")
+		d, _ := want.data.(string)
+		zv.AssertExcept("mux-runs-the-looked-up-handler", c05Mux.ran == d, reserved, "KF-C05-reserved-bytes")
+		zv.Assert("mux-param-count", len(c05Mux.params) == len(want.params))
+		for k := range want.params {
+			if k < len(c05Mux.params) {
+				zv.Assert("mux-param", c05Mux.params[k].Name == want.params[k].Name && zv.StrEq(c05Mux.params[k].Value, want.params[k].Value))
+			}
+		}
+		return
+	}
+	zv.Reach("mux-not-found")
+	zv.Assert("mux-no-handler-runs", c05Mux.ran == "")
+	zv.Assert("mux-answers-404", c05Mux.status == http.StatusNotFound)
 }
